@@ -27,6 +27,14 @@ type postBatcher interface {
 	// PostBatch may add violations / counters from files the worker left behind.
 	PostBatch(outdir string, batch int, res *workerResult)
 }
+type parentChecker interface {
+	// ParentCheck judges facts that only the merged view of all child processes shows.
+	ParentCheck(tier string, counters map[string]int64, sets map[string]map[string]struct{}) []Violation
+}
+type workerBinarier interface {
+	// WorkerBinary may name another executable for a batch ("" = this one).
+	WorkerBinary(tier string, batch int) string
+}
 type evidenceExtra interface {
 	EvidenceExtra(tier string, counters map[string]int64, sets map[string]map[string]struct{}) map[string]any
 }
@@ -224,7 +232,13 @@ func parent(id, tier string) int {
 			defer wg.Done()
 			defer func() { <-sem }()
 			o := outcome{batch: b}
-			cmd := exec.Command(exe, "worker", id, tier, strconv.Itoa(b), outdir)
+			bin := exe
+			if wb, ok := mon.(workerBinarier); ok {
+				if alt := wb.WorkerBinary(tier, b); alt != "" {
+					bin = alt
+				}
+			}
+			cmd := exec.Command(bin, "worker", id, tier, strconv.Itoa(b), outdir)
 			cmd.Env = append(os.Environ(), "VERIF_SEED="+strconv.FormatInt(int64(seed), 10))
 			if we, ok := mon.(workerEnver); ok {
 				cmd.Env = append(cmd.Env, we.WorkerEnv(outdir, b)...)
@@ -336,6 +350,12 @@ func parent(id, tier string) int {
 		for i := 0; i+8 <= len(hb); i += 8 {
 			hashes[binary.LittleEndian.Uint64(hb[i:])] = struct{}{}
 		}
+	}
+	for k, m := range sets {
+		counters["set_size/"+k] = int64(len(m))
+	}
+	if pc, ok := mon.(parentChecker); ok && len(inconclusive) == 0 {
+		viols = append(viols, pc.ParentCheck(tier, counters, sets)...)
 	}
 	if counters["harness_panics"] > 0 {
 		inconclusive = append(inconclusive, fmt.Sprintf("harness panicked outside the library %d times (%v) — harness bug, no verdict", counters["harness_panics"], extra["harness_panic"]))
